@@ -61,8 +61,12 @@ Definition expected (s : state) (t : tid) (fault : bool) : option (nat * ca * na
       Some (k_order, c,
             if fault then 2
             else if live s c (m_loc m) then (if Nat.eqb (m_loc m) (m_key m) then 0 else 2) else 1)
+  | DWantLock _ => Some (k_lock, 0, 0)
+  | DLoadReg _ => Some (k_loadreg, c, nf (oacct (s_reg sl)))
+  | DLoadKey _ _ => Some (k_loadkey, c, nf (oacct (s_key sl)))
   | DelReg _ => Some (k_delreg, c, 0)
   | DelKey _ => Some (k_delkey, c, 0)
+  | DUnlock _ => Some (k_unlock, 0, 0)
   end.
 
 Definition triple_eqb (a b : nat * ca * nat) : bool :=
@@ -135,7 +139,7 @@ Record ostate := OState {
   o_target : tid -> ca;                 (* CA of the thread (from its Start) *)
   o_last : tid -> nat * bool;           (* kind and fault of the thread's previous operation *)
   o_ok_e : bool;                        (* so far only the directory in use was touched *)
-  o_ok_d : bool                         (* so far no complete, live account was deleted *)
+  o_ok_d : bool                         (* so far deleteAccountLocally only deleted a stored account the CA had forgotten *)
 }.
 
 Definition oinit : ostate :=
@@ -179,8 +183,17 @@ Definition ostep (o : ostate) (e : event) : ostate :=
          storeTx's rollback; every other Delete is deleteAccountLocally *)
       let rollback := Nat.eqb k k_delreg && Nat.eqb lk k_storekey && lf in
       let recreate_del := (Nat.eqb k k_delreg || Nat.eqb k k_delkey) && negb rollback in
-      (* (d) deleteAccountLocally never hits a proper account the CA still knows *)
-      let ok_d := negb (recreate_del && negb f && o_live_proper o kc) in
+      (* (d) deleteAccountLocally runs only on a stored account (reg and key file present) whose
+         registration is one the CA has forgotten: its first Delete finds that, its second Delete
+         finds the reg file gone (so no other account, and in particular no account the CA still
+         knows, is ever deleted — whatever the interleaving) *)
+      let ok_d := negb (recreate_del && negb f) ||
+                  (if Nat.eqb k k_delreg
+                   then match s_reg sl with
+                        | Some r => (r <=? o_forgotten o kc) && has_key sl
+                        | None => false
+                        end
+                   else negb (has_reg sl)) in
       let slots' :=
           if f then o_slots o
           else if Nat.eqb k k_storereg then upd (o_slots o) kc (Slot (ov v) (s_key sl))
@@ -207,7 +220,9 @@ Fixpoint spec_cas (o : ostate) (f : final) (c : ca) (l : list (nat * nat * nat))
   match l with
   | [] => true
   | (cr, rg, ky) :: r =>
-      (* (a) registrations bounded *)
+      (* (a) registrations bounded: each one beyond the first is paid for by a failed save, a crash
+         between registering and saving, or a re-installation of the CA (and by a deletion) *)
+      (cr <=? 1 + o_fsaves o c + o_crashes o c + o_resets o c) &&
       (cr <=? 1 + o_fsaves o c + o_crashes o c + o_deletes o c) &&
       (* (b) persisted together *)
       (negb (Nat.eqb (o_deletes o c) 0) || Nat.eqb ky 0 || Nat.eqb rg ky) &&
@@ -220,8 +235,22 @@ Fixpoint spec_cas (o : ostate) (f : final) (c : ca) (l : list (nat * nat * nat))
       spec_cas o f (S c) r
   end.
 
+(** every thread that was started is among the finished ones *)
+Definition all_finished (evs : list event) (f : final) : bool :=
+  forallb (fun e => match e with
+                    | EStart t _ => existsb (fun '(t', _) => Nat.eqb t' t) (f_res f)
+                    | _ => true
+                    end) evs.
+
+Definition no_unlock_fault (evs : list event) : bool :=
+  forallb (fun e => match e with EOp _ true k _ _ => negb (Nat.eqb k k_unlock) | _ => true end) evs.
+
+(** (f) when no issuance is in flight any more (and no Unlock failed), the registration lock is free *)
+Definition spec_lock (evs : list event) (f : final) : bool :=
+  negb (all_finished evs f && no_unlock_fault evs) || f_lock_free f.
+
 Definition spec_hist (evs : list event) (f : final) : bool :=
-  let o := orun evs in o_ok_e o && o_ok_d o && spec_cas o f 0 (f_cas f).
+  let o := orun evs in o_ok_e o && o_ok_d o && spec_cas o f 0 (f_cas f) && spec_lock evs f.
 
 (* ------------------------------------------------------------------ kinds 1, 2: URL rule *)
 
@@ -422,8 +451,24 @@ Definition get_url_case : dec url_case :=
    it <- get_list (h <- get_str ;; i <- get_bool ;; r <- get_bool ;; ret (h, (i, r))) ;;
    ret (UrlCase c t u pt (map (fun '(h, (i, _)) => (h, i)) it) (map (fun '(h, (_, r)) => (h, r)) it))).
 
+(** kind 0, external account binding: the requests that carried an externalAccountBinding or
+    created an account, as the mock CAs logged them: (CA, account-creating newAccount?, carries a
+    binding?, the CA whose newAccount URL the binding names (9 none), key id + MAC + inner JWK all
+    as configured / as the outer request's key) *)
+Definition eab_rec := (nat * bool * bool * nat * bool)%type.
+
+(** (g) a binding is sent only inside an account-creating newAccount request, names the newAccount
+    URL of the CA that receives it, carries the configured key id, a valid MAC and the account key
+    that signs the request — and only when an external account is configured; with one
+    configured, every account created at the production CA was bound to it *)
+Definition eab_spec (conf : bool) (recs : list eab_rec) : bool :=
+  forallb (fun r : eab_rec =>
+             let '(c, creating, has, url_ca, good) := r in
+             if (has : bool) then conf && creating && Nat.eqb url_ca c && good
+             else negb (conf && creating && Nat.eqb c 0)) recs.
+
 Inductive case :=
-| CHist (evs : list event) (f : final)
+| CHist (evs : list event) (f : final) (eab_conf : bool) (eab : list eab_rec)
 | CUrl (u : url_case) (obs : option str)
 | CContact (u : url_case) (cs : list (bool * bool))
 | CKeyPem (with_email key_matches reg_ok ca_knows : bool)
@@ -433,7 +478,11 @@ Inductive case :=
 Definition get_case : dec case :=
   (kind <- get_nat ;;
    match kind with
-   | 0 => evs <- get_events ;; f <- get_final ;; ret (CHist evs f)
+   | 0 => evs <- get_events ;; f <- get_final ;;
+          conf <- get_bool ;;
+          recs <- get_list (c <- get_nat ;; cr <- get_bool ;; h <- get_bool ;; u <- get_nat ;; g <- get_bool ;;
+                            ret (c, cr, h, u, g)) ;;
+          ret (CHist evs f conf recs)
    | 1 => u <- get_url_case ;; o <- get_opt get_str ;; ret (CUrl u o)
    | 2 => u <- get_url_case ;; cs <- get_list (get_pair get_bool get_bool) ;; ret (CContact u cs)
    | 3 => we <- get_bool ;; km <- get_bool ;; ro <- get_bool ;; ck <- get_bool ;;
@@ -451,7 +500,7 @@ Definition get_case : dec case :=
 
 Definition model_agrees (c : case) : bool :=
   match c with
-  | CHist evs f =>
+  | CHist evs f _ _ =>
       match replay init evs with
       | Some (s, b) => b && final_agree s f
       | None => false
@@ -469,7 +518,7 @@ Definition model_agrees (c : case) : bool :=
 
 Definition spec_ok (c : case) : bool :=
   match c with
-  | CHist evs f => spec_hist evs f
+  | CHist evs f conf recs => spec_hist evs f && eab_spec conf recs
   | CUrl u obs => url_spec u obs
   | CContact u cs => contact_spec cs
   | CKeyPem _ _ _ _ _ _ _ cr => Nat.eqb cr 0     (* a configured key never registers an account *)
@@ -512,7 +561,7 @@ Fixpoint kfirst_bad (s : kstate) (evs : list event) (i : nat) : nat :=
 
 Definition explain_line (l : list Z) : list Z :=
   match decode get_case l with
-  | Some (CHist evs f) =>
+  | Some (CHist evs f _ _) =>
       let i := first_bad init evs 0 in
       let st := match replay init (firstn i evs) with Some (s, _) => s | None => init end in
       let exp := match nth_error evs i with
